@@ -276,6 +276,16 @@ func (w *World) Close() {
 // labelled drop="yes" and has a metric relabel rule dropping drop_.* metrics.
 func ConfigText(jobs []string) string { return ConfigTextRule(jobs, true) }
 
+// ConfigTextCA is ConfigTextRule with a tls_config.ca_file on every job: while that file is
+// missing the scrape manager cannot build the job's client and skips the job.
+func ConfigTextCA(jobs []string, dropRule bool, caFile string) string {
+	t := ConfigTextRule(jobs, dropRule)
+	if caFile == "" {
+		return t
+	}
+	return strings.ReplaceAll(t, "  static_configs:\n", "  tls_config:\n    ca_file: "+caFile+"\n  static_configs:\n")
+}
+
 // ConfigTextRule: with dropRule=false the jobs keep every metric (no metric relabel rule).
 func ConfigTextRule(jobs []string, dropRule bool) string {
 	if !dropRule {
